@@ -306,10 +306,28 @@ class C19Monitor:
 class Passive(CallbackListener):
     """Extra listener that only counts (overrides every hook so that it is registered everywhere)."""
 
+    ret = None
+
     def __init__(self):
         self.n = 0
         self.per = collections.Counter()
         super().__init__()
+
+
+class WireBudget(CallbackListener):
+    """A vetoing listener: no cable may be given more than `limit` wires over its life (the 5th addition is refused)."""
+
+    def __init__(self, limit=4):
+        self.limit = limit
+        self.seen = collections.Counter()
+        self.vetoes = 0
+        super().__init__()
+
+    def cable_add_wire(self, cable, wire):
+        self.seen[id(cable)] += 1
+        if self.seen[id(cable)] > self.limit:
+            self.vetoes += 1
+            raise ValueError("listener veto: cable would get wire number %d" % self.seen[id(cable)])
 
 
 def _mk_passive():
@@ -319,6 +337,7 @@ def _mk_passive():
         def f(self, *a, **k):
             self.n += 1
             self.per[name] += 1
+            return self.ret         # (what a listener returns is nobody's business: a "dirty" flag, a count)
         f.__name__ = name
         return f
     for n in names:
@@ -382,6 +401,8 @@ def one_run(seed_rng_state, nsteps, policy, extra):
     partial = None
     if extra:
         listeners = [Passive() for _ in range(extra)]
+        if extra >= 2:
+            listeners[0].ret = True       # the listener that was registered first answers every announcement with a value
         partial = make_partial(random.Random(extra * 7919 + nsteps))()
     eng = gen_ops.Engine(rng, "listen", policy, fences=tuple(FENCES) + (("bad_position",) if common.fenced(sys.modules[__name__], BADPOS) else ()))
     toggled = Passive() if extra else None
@@ -517,6 +538,9 @@ def run_case(ctx, i, rng):
             finally:
                 sh.deregister_all_listeners()
             return
+        # (a vetoing listener registered BEFORE the mirror: what it refuses is never announced to the mirror, and what was
+        #  announced before the veto - the first wires of a bulk call - has happened)
+        veto = WireBudget() if i % 5 == 2 else None
         sh = Shadow(ctx)
         try:
             eng = gen_ops.Engine(rng, "listen", policy, fences=tuple(FENCES) + (("bad_position",) if common.fenced(sys.modules[__name__], BADPOS) else ()))
@@ -524,6 +548,9 @@ def run_case(ctx, i, rng):
             gen_ops.run_history(eng, rng.randint(60, 160), [m])
         finally:
             sh.deregister_all_listeners()
+            if veto is not None:
+                veto.deregister_all_listeners()
+                ctx.count("wire_additions_vetoed_by_a_listener", veto.vetoes)
         ctx.fingerprint([(e[1], e[3]) for e in eng.log], sh.n >= 100 and sh.implicit_disc >= 1 and m.refused >= 1)
         if i < 2:
             ctx.sample({"policy": policy, "notifications": sh.n, "history_head": eng.log[:25]})
